@@ -33,6 +33,8 @@ def deref_all(I, v, st):
             v = v.v
         elif isinstance(v, Ref):
             v = I.read_ref(v, st)
+        elif isinstance(v, HeapBox) and st is not None and st.store.get(v.key) is not None:
+            v = st.store[v.key]
         else:
             return v
 
@@ -220,11 +222,15 @@ def register(I):
         a = args[0]
         if isinstance(a, Ref) and info.path.last() == "deref_mut":
             v = I.read_ref(a, st)
+            if isinstance(v, HeapBox):
+                return Ref(v.key, ())
             if isinstance(v, BoxV):
                 return Ref(a.key, a.path + (("box",),))
             return a              # &mut Vec<T> -> &mut [T], &mut String -> &mut str: same cell
         if isinstance(a, Ref):
             v = I.read_ref(a, st)
+            if isinstance(v, HeapBox):
+                return ValRef(st.store[v.key])
             if isinstance(v, BoxV):
                 return Ref(a.key, a.path + (("box",),))
             if isinstance(v, VecV):
@@ -239,6 +245,8 @@ def register(I):
             return SliceV(v.items)
         if isinstance(v, BoxV):
             return ValRef(v.v)
+        if isinstance(v, HeapBox):
+            return ValRef(st.store[v.key])
         return ValRef(v)
 
     @reg("Clone::clone", "ToOwned::to_owned")
@@ -386,7 +394,7 @@ def register(I):
                 outs.extend(I.call_value(args[1], [], st2))
         return outs
 
-    @reg("core::bool::then", "bool::then")
+    @reg("core::bool::then", "bool::then", "<impl bool>::then")
     def bool_then(I, st, args, info):
         c = args[0]
         outs = []
@@ -628,9 +636,15 @@ def register(I):
             return IterV([ValRef(e) for e in items] if byref else items)
         return umap(f, vv)
 
-    @reg("Box::new", "Rc::new", "Arc::new")
-    def box_new(I, st, args, info):
+    @reg("Rc::new", "Arc::new")
+    def rc_new(I, st, args, info):
         return BoxV(args[0], info.path.names()[-2])
+
+    @reg("Box::new")
+    def box_new(I, st, args, info):
+        # a Box has identity: the compiler lowers `*b` to accesses through the raw pointer inside it
+        from .fmtmodel import new_cell
+        return HeapBox(new_cell(st, args[0]))
 
     @reg("Box::new_uninit")
     def box_new_uninit(I, st, args, info):
@@ -648,6 +662,17 @@ def register(I):
     def into_vec(I, st, args, info):
         return VecV(seq_of(I, args[0], st))
 
+    @reg("<impl [T]>::join", "<impl [T]>::concat")
+    def join(I, st, args, info):
+        parts = seq_of(I, args[0], st)
+        sep = as_str_items(I, args[1], st) if len(args) > 1 else ()
+        out = []
+        for i, p_ in enumerate(parts):
+            if i:
+                out.extend(sep)
+            out.extend(as_str_items(I, p_, st))
+        return StringV(out)
+
     @reg("Extend::extend")
     def extend(I, st, args, info):
         r = args[0]
@@ -658,10 +683,12 @@ def register(I):
         return ()
 
     # ----------------------------------------------------------------- iterators
-    def drive_paths(I, it, st):
+    def drive_paths(I, it, st, unordered_ok=False):
         """evaluate an iterator with pending adaptors -> (st', items, [(st_p, Panic)...]).
         Closure calls are threaded through the state; a conditional panic inside a closure splits
         off a panic path and the remaining path continues."""
+        if isinstance(it, UnorderedIter) and not unordered_ok:
+            raise Unsupported("result depends on HashMap iteration order (consumer is not order-insensitive)")
         items = list(it.items)
         panics = []
         cur = st
@@ -704,9 +731,9 @@ def register(I):
         return items
     I.drive_iter = drive
 
-    def consume(I, it, st, k):
+    def consume(I, it, st, k, unordered_ok=False):
         """run consumer k(items, st') -> value | [(St, value)] on the driven iterator, keeping panic paths"""
-        cur, items, panics = drive_paths(I, it, st)
+        cur, items, panics = drive_paths(I, it, st, unordered_ok)
         outs = list(panics)
         if cur is not None:
             r = k(items, cur)
@@ -785,7 +812,7 @@ def register(I):
     @reg("Iterator::map")
     def it_map(I, st, args, info):
         it = args[0]
-        return IterV(it.items, it.ops + (("map", args[1]),))
+        return type(it)(it.items, it.ops + (("map", args[1]),))
 
     @reg("Iterator::enumerate")
     def it_enum(I, st, args, info):
@@ -856,7 +883,9 @@ def register(I):
 
     @reg("Iterator::collect", "FromIterator::from_iter")
     def it_collect(I, st, args, info):
-        return consume(I, args[0], st, lambda items, s2: collect_items(I, items, s2, info))
+        gens = info.path.generics(-1)
+        target = _interp.short_type(gens[0]) if gens else _interp.short_type(info.dest_type() or "")
+        return consume(I, args[0], st, lambda items, s2: collect_items(I, items, s2, info), unordered_ok=target.startswith("HashMap<"))
 
     def collect_items(I, items, st, info):
         gens = info.path.generics(-1)
@@ -891,6 +920,85 @@ def register(I):
                 m = m.insert(I, k, v, st)[0]
             return m
         raise Unsupported("collect into " + target)
+
+    # ----------------------------------------------------------------- HashMap (association list; see MapV)
+    @reg("HashMap::new")
+    def map_new(I, st, args, info):
+        return MapV(())
+
+    @reg("HashMap::get")
+    def map_get(I, st, args, info):
+        m = deref_all(I, args[0], st)
+        key = deref_all(I, args[1], st)
+        look = m.lookup(I, key, st)
+        return Outcomes([(g, OPT_NONE if v is None else opt_some(ValRef(v))) for g, v in look])
+
+    @reg("HashMap::contains_key")
+    def map_contains(I, st, args, info):
+        m = deref_all(I, args[0], st)
+        key = deref_all(I, args[1], st)
+        look = m.lookup(I, key, st)
+        return b_or(*[g for g, v in look if v is not None])
+
+    @reg("HashMap::insert")
+    def map_insert(I, st, args, info):
+        r = args[0]
+        m = I.read_ref(r, st)
+        if isinstance(m, Union):
+            raise Unsupported("insert into a union of maps")
+        look = m.lookup(I, args[1], st)
+        outs = []
+        for g, old in look:
+            if g is False or not I.feasible(st.pc, g):
+                continue
+            st2 = st.fork(b_simpl(g) if is_sym(g) else g)
+            if old is None:
+                m2 = MapV(m.entries + ((args[1], args[2]),))
+                ret = OPT_NONE
+            else:
+                ents = []
+                hit = False
+                for k, v in m.entries:
+                    if not hit and v is old:
+                        ents.append((k, args[2]))
+                        hit = True
+                    else:
+                        ents.append((k, v))
+                m2 = MapV(ents)
+                ret = opt_some(old)
+            I.write_cell(r.key, r.path, m2, st2)
+            outs.append((st2, ret))
+        return outs
+
+    @reg("HashMap::iter")
+    def map_iter(I, st, args, info):
+        m = deref_all(I, args[0], st)
+        it = IterV([(ValRef(k), ValRef(v)) for k, v in m.entries])
+        return UnorderedIter(it.items)
+
+    @reg("HashMap::len")
+    def map_len(I, st, args, info):
+        return len(deref_all(I, args[0], st).entries)
+
+    # ----------------------------------------------------------------- clock
+    @reg("SystemTime::now")
+    def now(I, st, args, info):
+        k = len(I.clock_reads)
+        t = z3.BitVec("now_%d" % k, 64)
+        I.clock_reads.append(t)
+        return Adt("SystemTime", None, [t])
+
+    @reg("SystemTime::duration_since")
+    def duration_since(I, st, args, info):
+        a, b = deref_all(I, args[0], st), deref_all(I, args[1], st)
+        ta, tb = a.fields[0], b.fields[0]
+        if isinstance(tb, int) and tb == 0:
+            return res_ok(Adt("Duration", None, [ta]))     # assumption: the clock is not before the UNIX epoch
+        raise Unsupported("duration_since a non-epoch instant")
+
+    @reg("Duration::as_secs")
+    def as_secs(I, st, args, info):
+        return deref_all(I, args[0], st).fields[0]
 
     # ----------------------------------------------------------------- arithmetic operator traits on primitives
     # (core's impls carry #[rustc_inherit_overflow_checks]: they panic on overflow iff the calling
@@ -950,6 +1058,11 @@ def register(I):
     from . import fmtmodel, bitflagsmodel
     fmtmodel.register(I, R, fmt_hooks)
     bitflagsmodel.register(I, R)
+
+
+class UnorderedIter(IterV):
+    """iterator over a HashMap: the order is unspecified, so only order-insensitive consumers may drive it"""
+    __slots__ = ()
 
 
 class ByteLen:
